@@ -58,6 +58,7 @@ func extractOf(c *ssa.Call, idx int) ssa.Value {
 }
 
 func c12(r *Report, s *Sem) {
+	defer r.Import(s, "C16", "R3", "R7", "merged reads do not starve later envelopes: the read budget is re-armed unconditionally for every Receive (a budget renewed only when nothing is buffered makes a coalesced burst of small envelopes hit the limit)", 1)
 	p := r.P
 	R1 := r.Rule("R1", "writer progress: a Write wrapper that retries hands the inner Write the unsent remainder b[acc:] where acc accumulates every inner count, and every return after an inner call reports that accumulated count (no byte written twice, none unreported)", 2)
 	R2 := r.Rule("R2", "reader progress: a Read wrapper never discards a positive inner count: every return after the inner call reports that count, and a retry is taken only on the edge count <= 0", 2)
@@ -524,6 +525,7 @@ func derivesFromWrapper(v ssa.Value, d int) bool {
 
 func c16(r *Report, s *Sem) {
 	p := r.P
+	defer r.Import(s, "C12", "R5", "R6", "an envelope within the limit is accepted wherever it sits in the stream: once Decode succeeded under the per-envelope budget, Receive returns the converted envelope — no further size test (a decoder's stream offset is cumulative) may refuse it", 1, "a successful Decode")
 	R1 := r.Rule("R1", "the TCP transport's decoder is constructed only over the address of the transport's own io.LimitedReader, whose R derives from the polling wrapper (optionally through io.TeeReader)", 2)
 	R2 := r.Rule("R2", "every store to the limited reader's budget N stores the same transport's ReadLimit; ReadLimit is defaulted to the positive DefaultReadLimit on its == 0 edge before first use — so N ≤ ReadLimit is invariant (io.LimitedReader only decreases N)", 3)
 	R3 := r.Rule("R3", "the budget is re-armed for every envelope: in Receive a store N = ReadLimit dominates the Decode call (or follows it on every path on which the transport stays usable)", 1)
